@@ -1,0 +1,98 @@
+//go:build verif
+
+// Package c13 re-exports the C13 verification hooks of internal/transport and
+// the payload codec of internal/rsm and internal/utils/dio so that the
+// verification harness (a different module) can reach them. Add-only; compiled
+// only with -tags verif.
+package c13
+
+import (
+	"net"
+
+	"github.com/lni/dragonboat/v4/internal/rsm"
+	"github.com/lni/dragonboat/v4/internal/settings"
+	"github.com/lni/dragonboat/v4/internal/transport"
+	"github.com/lni/dragonboat/v4/internal/utils/dio"
+	pb "github.com/lni/dragonboat/v4/raftpb"
+)
+
+// EncodeHeader is requestHeader.encode.
+func EncodeHeader(method uint16, size uint64, crc uint32) []byte {
+	return transport.VerifC13EncodeHeader(method, size, crc)
+}
+
+// DecodeHeader is requestHeader.decode.
+func DecodeHeader(buf []byte) (bool, uint16, uint64, uint32) {
+	return transport.VerifC13DecodeHeader(buf)
+}
+
+// WriteMessage is writeMessage.
+func WriteMessage(conn net.Conn,
+	method uint16, crc uint32, buf []byte, encrypted bool) error {
+	return transport.VerifC13WriteMessage(conn, method, crc, buf, encrypted)
+}
+
+// ReadFrame is readMagicNumber followed by readMessage.
+func ReadFrame(conn net.Conn, rbufLen int,
+	encrypted bool) (string, uint16, uint64, uint32, []byte) {
+	return transport.VerifC13ReadFrame(conn, rbufLen, encrypted)
+}
+
+// SetRecvBufSize sets the chunk size of the frame read/write loops.
+func SetRecvBufSize(n uint64) uint64 {
+	return transport.VerifC13SetRecvBufSize(n)
+}
+
+// FrameConstants returns requestHeaderSize, raftType, snapshotType, magic
+// number and poison number.
+func FrameConstants() (int, uint16, uint16, [2]byte, [2]byte) {
+	return transport.VerifC13Constants()
+}
+
+// NewTCPConnection is transport.NewTCPConnection.
+func NewTCPConnection(conn net.Conn, encrypted bool) *transport.TCPConnection {
+	return transport.NewTCPConnection(conn, encrypted)
+}
+
+// NewTCPSnapshotConnection is transport.NewTCPSnapshotConnection.
+func NewTCPSnapshotConnection(conn net.Conn,
+	encrypted bool) *transport.TCPSnapshotConnection {
+	return transport.NewTCPSnapshotConnection(conn, encrypted)
+}
+
+// CompressionType is dio.CompressionType.
+type CompressionType = dio.CompressionType
+
+// Compression types.
+const (
+	NoCompression = dio.NoCompression
+	Snappy        = dio.Snappy
+)
+
+// GetEncoded is rsm.GetEncoded.
+func GetEncoded(ct CompressionType, cmd []byte, dst []byte) []byte {
+	return rsm.GetEncoded(ct, cmd, dst)
+}
+
+// GetPayload is rsm.GetPayload.
+func GetPayload(e pb.Entry) ([]byte, error) {
+	return rsm.GetPayload(e)
+}
+
+// MaxEncodedLen is dio.MaxEncodedLen.
+func MaxEncodedLen(ct CompressionType, srcLen uint64) (uint64, bool) {
+	return dio.MaxEncodedLen(ct, srcLen)
+}
+
+// CompressSnappyBlock is dio.CompressSnappyBlock.
+func CompressSnappyBlock(src []byte, dst []byte) int {
+	return dio.CompressSnappyBlock(src, dst)
+}
+
+// DecompressSnappyBlock is dio.DecompressSnappyBlock.
+func DecompressSnappyBlock(src []byte, dst []byte) error {
+	return dio.DecompressSnappyBlock(src, dst)
+}
+
+// EntryNonCmdFieldsSize is settings.EntryNonCmdFieldsSize.
+const EntryNonCmdFieldsSize = settings.EntryNonCmdFieldsSize
